@@ -1,15 +1,15 @@
-(* Correspondence glue for C13: one case = (module, blackboxes, start entries, what the real
+(* Correspondence glue for C13: one case = (module, blackboxes, start entries, group-by values, what the real
    sequencediagram.GenerateSequenceDiag produced, read back from the PlantUML text by the harness). *)
 From Coq Require Import List NArith Bool.
 Import ListNotations.
 Require Import Verif.Seq.SeqModel Verif.Base.Harness.
 
 Inductive obs :=
-| ObsOk (d:list decl) (ev:list event)   (* head declarations in order, body events in order *)
+| ObsOk (d:list decl) (ev:list event) (bx:list (id * list id))   (* head declarations, body events, group boxes, in order *)
 | ObsErr                                (* an error was returned *)
 | ObsPanic.                             (* the call panicked *)
 
-Definition c13_case := (module * list bbin * list (id*id) * obs)%type.
+Definition c13_case := (module * list bbin * list (id*id) * list (id*id) * obs)%type.
 
 Definition part_eqb (x y:part) : bool :=
   match x, y with World, World => true | P a, P b => N.eqb a b | _, _ => false end.
@@ -34,10 +34,14 @@ Definition event_eqb (x y:event) : bool :=
   end.
 Definition decl_eqb (x y:decl) : bool := N.eqb (fst x) (fst y) && agentk_eqb (snd x) (snd y).
 
+Definition box_eqb (x y:id * list id) : bool := N.eqb (fst x) (fst y) && list_eqb N.eqb (snd x) (snd y).
+
 Definition c13_ok (V:variant) (c:c13_case) : bool :=
-  match c with (m, bbs, starts, o) =>
+  match c with (m, bbs, starts, groups, o) =>
     match gen V m (fuel_for m) bbs starts, o with
-    | Ok (d, ev), ObsOk d' ev' => list_eqb decl_eqb d d' && list_eqb event_eqb ev ev'
+    | Ok (d, ev), ObsOk d' ev' bx' =>
+        list_eqb decl_eqb d d' && list_eqb event_eqb ev ev'
+        && match gen_boxes V m (fuel_for m) bbs starts groups with Ok bx => list_eqb box_eqb bx bx' | _ => false end
     | Err, ObsErr => true
     | Panic, ObsPanic => true
     | _, _ => false
